@@ -235,6 +235,9 @@ pub enum Pay {
 	Compressible { len: u32 },
 	/// a few empty payloads among coordinate texts
 	SomeEmpty,
+	/// a minimal valid Mapbox vector tile: one layer named after the set's tag, one point
+	/// feature whose id and string property encode the coordinate
+	Mvt,
 }
 
 #[derive(Clone, Debug, PartialEq, Eq, Serialize, Deserialize)]
@@ -418,6 +421,7 @@ impl Pay {
 				v.truncate((*len as usize).max(1));
 				v
 			}
+			Pay::Mvt => mvt_min(tag, c),
 			Pay::SomeEmpty => {
 				if index % 3 == 1 {
 					vec![]
@@ -427,6 +431,56 @@ impl Pay {
 			}
 		}
 	}
+}
+
+fn pb_varint(v: &mut Vec<u8>, mut x: u64) {
+	loop {
+		let b = (x & 0x7f) as u8;
+		x >>= 7;
+		if x == 0 {
+			v.push(b);
+			return;
+		}
+		v.push(b | 0x80);
+	}
+}
+fn pb_bytes(v: &mut Vec<u8>, field: u32, data: &[u8]) {
+	pb_varint(v, ((field as u64) << 3) | 2);
+	pb_varint(v, data.len() as u64);
+	v.extend_from_slice(data);
+}
+fn pb_uint(v: &mut Vec<u8>, field: u32, x: u64) {
+	pb_varint(v, (field as u64) << 3);
+	pb_varint(v, x);
+}
+
+/// feature id used by `mvt_min` for a coordinate
+pub fn mvt_feature_id(c: &Coord) -> u64 {
+	((c.z as u64) << 56) ^ ((c.x as u64) << 28) ^ c.y as u64
+}
+
+/// minimal valid vector tile (MVT 2.1): layer `name`, one point feature, one string property
+pub fn mvt_min(name: &str, c: &Coord) -> Vec<u8> {
+	let mut feature = vec![];
+	pb_uint(&mut feature, 1, mvt_feature_id(c));
+	pb_bytes(&mut feature, 2, &[0, 0]);
+	pb_uint(&mut feature, 3, 1);
+	let mut geom = vec![];
+	pb_varint(&mut geom, 9); // MoveTo, count 1
+	pb_varint(&mut geom, ((c.x % 2048) as u64) << 1);
+	pb_varint(&mut geom, ((c.y % 2048) as u64) << 1);
+	pb_bytes(&mut feature, 4, &geom);
+	let mut value = vec![];
+	pb_bytes(&mut value, 1, format!("{name} {c}").as_bytes());
+	let mut layer = vec![];
+	pb_bytes(&mut layer, 1, name.as_bytes());
+	pb_bytes(&mut layer, 2, &feature);
+	pb_bytes(&mut layer, 3, b"k");
+	pb_bytes(&mut layer, 4, &value);
+	pb_uint(&mut layer, 15, 2);
+	let mut tile = vec![];
+	pb_bytes(&mut tile, 3, &layer);
+	tile
 }
 
 impl SetSpec {
